@@ -45,7 +45,7 @@ PURE_APPS = {
     "builtins.repr", "builtins.bool", "builtins.frozenset", "builtins.tuple", "builtins.any", "builtins.all",
     "pathlib.Path", "re.match", "re.search", "re.fullmatch", "re.compile", "builtins.range", "builtins.enumerate",
     "builtins.zip", "builtins.getattr", "binascii.crc_hqx", "binascii.crc32", "zlib.crc32", "datetime.timezone.utc",
-    "builtins.hex", "time.struct_time",
+    "builtins.hex", "time.struct_time", "contextlib.suppress",
 }
 
 # clock-reading calls -> max number of positional args for which the *current* time is read
@@ -283,7 +283,13 @@ def call_ext(I: Any, name: str, args: List[Term], kwargs: Dict[str, Term], st: A
         from .interp import HeapObj
         if not args and not kwargs:
             return st.alloc(HeapObj("dict", None, {}, []))
-        if len(args) == 1:
+        if not args and kwargs:
+            return st.alloc(HeapObj("dict", None, {}, [(c(k_), v_) for k_, v_ in kwargs.items()]))      # dict(a=1, b=2)
+        if len(args) == 1 and not kwargs and args[0][0] == "obj" and st.heap[args[0][1]].kind == "dict" and not st.heap[args[0][1]].symbolic:
+            return st.alloc(HeapObj("dict", None, {}, list(st.heap[args[0][1]].items)))                  # a copy
+        if len(args) == 1 and not kwargs and args[0][0] == "cdict":
+            return st.alloc(HeapObj("dict", None, {}, list(args[0][1])))
+        if len(args) == 1 and not kwargs:
             items = I.iter_items(args[0], st, ctx, node)
             if items is not None:
                 pairs = []
@@ -365,6 +371,20 @@ def call_ext(I: Any, name: str, args: List[Term], kwargs: Dict[str, Term], st: A
         return I.external_call(name, args, kwargs, st, ctx, node, awaited)
     if name == "socket.inet_ntoa":
         return text_of(app("inet_ntoa", args))
+    if name == "ipaddress.IPv4Address" and len(args) == 1 and not kwargs:
+        # IPv4Address(4 bytes) / IPv4Address(int n): the address whose packed form is those bytes / n as 4 big-endian
+        # bytes; str() of it is the dotted quad inet_ntoa gives for the packed form (ValueError outside that)
+        a0_ = args[0]
+        sq_ = T.to_seq(a0_) if _textlike(a0_) else None
+        if sq_ is not None and sq_[1] == "raw":
+            st.may_raise("ValueError", ("cmp", "!=", length(I, a0_, st, ctx, node), c(4)), where)
+            return ("app", "ipaddress.IPv4Address", sq_)
+        if is_int_term(a0_):
+            n0 = len(st.pending)
+            pk_ = int_to_bytes(I, a0_, [c(4), c("big")], {}, st, ctx, node)
+            st.pending[n0:] = [(("ValueError",) + tuple(p_[1:])) if p_[0] == "OverflowError" else p_ for p_ in st.pending[n0:]]   # AddressValueError is a ValueError
+            if not is_top(pk_) and T.to_seq(pk_) is not None:
+                return ("app", "ipaddress.IPv4Address", T.to_seq(pk_))
     if name == "operator.methodcaller" and len(args) >= 1 and is_c(args[0]) and isinstance(args[0][1], str) and args[0][1].isidentifier():
         # methodcaller("m", *a, **k) == lambda x: x.m(*a, **k); the extra arguments are captured by name
         cap: Dict[str, Term] = {}
@@ -543,6 +563,8 @@ def call_ext(I: Any, name: str, args: List[Term], kwargs: Dict[str, Term], st: A
     if name in ("builtins.round",):
         if not kwargs and 1 <= len(args) <= 2 and all(is_c(a) and isinstance(a[1], (int, float)) and not isinstance(a[1], bool) for a in args):
             return c(round(*[a[1] for a in args]))
+        if len(args) == 1 and not kwargs:
+            return app("int", [app("round", args)])      # round(x) with one argument is an int: one form with int(round(x))
         return app("round", args, kwargs)
     if name == "builtins.hash":
         return app("hash", args)
@@ -563,6 +585,21 @@ def call_ext(I: Any, name: str, args: List[Term], kwargs: Dict[str, Term], st: A
         return app(name.split(".")[1], args, kwargs)
     if name == "builtins.getattr" and len(args) >= 2 and is_c(args[1]) and isinstance(args[1][1], str):
         obj, nm = args[0], args[1][1]
+        if obj[0] in ("ite", "lookup") and len(args) == 3:
+            # getattr(x, name, default) of a value chosen among alternatives: per alternative
+            from .interp import ite as _ite
+            if obj[0] == "ite" and len(obj) == 4:
+                return _ite(obj[1], call_ext(I, name, [obj[2]] + list(args[1:]), kwargs, st, ctx, node, awaited), call_ext(I, name, [obj[3]] + list(args[1:]), kwargs, st, ctx, node, awaited))
+            return ("lookup", tuple((k_, call_ext(I, name, [v_] + list(args[1:]), kwargs, st, ctx, node, awaited)) for k_, v_ in obj[1]), obj[2])
+        if is_c(obj) and len(args) == 3 and obj[1] is None:
+            return args[2] if not hasattr(None, nm) else top("attribute of None")
+        if obj[0] == "enum":
+            en_ = I.prog.enum_of(obj[1])
+            ci_ = I.prog.cls(obj[1].cls)
+            if nm in ("name", "value") or nm in en_.attrs or ci_.find_method(nm) or ci_.find_property(nm):
+                return I.getattr(obj, nm, st, ctx, node)
+            if len(args) == 3:
+                return args[2]
         if obj[0] == "obj":
             ho = st.heap[obj[1]]
             known = nm in ho.fields or (ho.cls is not None and (ho.cls.find_method(nm) or ho.cls.find_property(nm)))
@@ -904,6 +941,14 @@ def arith(op: str, a: Term, b: Term) -> Term:
                       "lshift": lambda x, y: x << y, "rshift": lambda x, y: x >> y, "pow": lambda x, y: x ** y}[op](a[1], b[1]))
         except Exception:  # noqa: BLE001
             return app(op, [a, b])
+    # the low / high hex digits of a number read from w digits: uint(d1..dw) % 16**k == uint(d(w-k+1)..dw), // gives the rest
+    if op in ("mod", "floordiv") and a[0] == "uint" and is_c(b) and isinstance(b[1], int) and not isinstance(b[1], bool) and b[1] > 1 and (b[1] & (b[1] - 1)) == 0 and (b[1].bit_length() - 1) % 4 == 0:
+        k_ = (b[1].bit_length() - 1) // 4
+        w_ = T.const_width(("seq", "s", a[1]))
+        if w_ is not None and int(w_) > k_:
+            part = T.slice_seq(("seq", "s", a[1]), int(w_) - k_, int(w_)) if op == "mod" else T.slice_seq(("seq", "s", a[1]), 0, int(w_) - k_)
+            if not is_top(part):
+                return T.uint_of(part[2])
     # identities with 0 on integers: 0 | x, x | 0, 0 ^ x, x ^ 0 are x
     if op in ("or", "xor"):
         for k_, x_ in ((a, b), (b, a)):
@@ -1166,7 +1211,12 @@ def index_value(I: Any, base: Term, idx: Term, st: Any, ctx: Any, node: ast.AST)
 
 
 def dict_lookup(I: Any, items: List[Tuple[Term, Term]], key: Term, st: Any, where: str, desc: str) -> Term:
-    from .interp import fold_cmp
+    from .interp import fold_cmp, _is_cond, ite as _ite
+    if isinstance(key, tuple) and key and _is_cond(key) and not is_c(key):
+        # a table keyed by a truth value: {True: a, False: b}[p] is a if p else b (KeyError only for a missing entry)
+        byb = {k_[1]: v_ for k_, v_ in items if is_c(k_) and isinstance(k_[1], bool)}
+        if True in byb and False in byb:
+            return _ite(key, byb[True], byb[False])
     key2 = I.canon_cmp_operand(key, st)
     maybe: List[Tuple[Term, Term]] = []
     for k, v in items:
@@ -1387,6 +1437,11 @@ def make_map(I: Any, f: Term, it: Term, st: Any, ctx: Any, node: ast.AST) -> Ter
 # ---------------------------------------------------------------------------
 def format_value(I: Any, x: Term, spec: str, st: Any, ctx: Any, node: ast.AST) -> Term:
     where = ctx.loc(node)
+    if spec == "" and isinstance(x, tuple) and x[:2] == ("app", "ipaddress.IPv4Address") and len(x) == 3:
+        return text_of(app("inet_ntoa", [x[2]]))
+    if spec == "%H:%M:%S" and isinstance(x, tuple) and x[:2] == ("app", "datetime.time") and all(isinstance(a, tuple) and a[:1] == ("kw",) and a[1] in ("hour", "minute", "second") for a in x[2:]):
+        # format(t, "%H:%M:%S") (= t.strftime) of a naive time without microseconds is t.isoformat()
+        return text_of(app(".isoformat", [x]))
     if spec == "":
         s = T.to_seq(x) if _textlike(x) else None
         if s is not None:
